@@ -342,7 +342,11 @@ fn evaluate_str(report: &mut Report, cases: &[StrCase], outcomes: &[StrOutcome],
         }
         // ---- correspondence
         if o.model != hex(real) {
-            let found = if oracle_luau_ok || o.straddles {
+            // budgeted: a systematic break shows up on thousands of inputs; search around the
+            // first few only
+            let searches = report.counters.get("correspondence_searches").copied().unwrap_or(0);
+            let found = if (oracle_luau_ok || o.straddles) && searches < 4 {
+                report.count("correspondence_searches", 1);
                 search_str_failure(&c.v, rng)
             } else {
                 None // the oracle violation on this very input is already reported
